@@ -33,6 +33,11 @@ func init() {
 					r.Unresolved("no error assignment found")
 				}
 			}},
+			{ID: "C05.R14", Floor: 20, Doc: "no field is accessed through a pointer at a point where a dominating test found the pointer nil (every function of the module)", Run: func(p *Program, r *Report) {
+				if nilDerefs(p, r, func(fi *FuncInfo) bool { return true }) == 0 {
+					r.Unresolved("no pointer is tested against nil anywhere")
+				}
+			}},
 			{ID: "C05.R13", Floor: 1, Doc: "readTypeInfo returns the plain NativeType only for ids that are not tuple, UDT, map, list or set: the unchecked assertions of the decoders rely on the concrete type following Type()", Run: c05r13},
 			{ID: "C05.R12", Floor: 1, Doc: "no `if err := ..` whose body falls through hides the call's error from code that reads an outer err afterwards", Run: func(p *Program, r *Report) {
 				if shadowedErrors(p, r, func(fi *FuncInfo) bool { return fi.Pkg == p.Root || strings.Contains(fi.Pkg.PkgPath, "/internal/") }, "shadowed error") == 0 {
